@@ -29,7 +29,7 @@ def _filters(fn, loop, keyvar):
             out.append((n, lam.args.args[0].arg, lam.body))
         if isinstance(n, (ast.GeneratorExp, ast.ListComp)) and len(n.generators) == 1 and \
                 src(n.generators[0].iter) == keyvar and len(n.generators[0].ifs) == 1 and \
-                src(n.elt) == src(n.generators[0].target):
+                src(n.generators[0].target) in {x.id for x in ast.walk(n.elt) if isinstance(x, ast.Name)}:
             out.append((n, src(n.generators[0].target), n.generators[0].ifs[0]))
     return out
 
